@@ -133,6 +133,9 @@ pub enum TextOrder {
     NamesFirst,
     StringsFirst,
     Interleaved,
+    /// longest strings first; a string that is the tail of one already stored is not stored
+    /// again but addressed INSIDE the longer one (tail sharing, as linkers and packers do)
+    TailShared,
 }
 
 #[derive(Clone, Debug)]
@@ -267,6 +270,30 @@ pub fn write_layout(c: &Content, l: &Layout) -> Vec<u8> {
                 name_off[i] = place(nm, &mut text, &mut shared, l.duplicate_strings);
             }
         }
+        TextOrder::TailShared => {
+            let mut all: Vec<String> = labels.iter().map(|l| l.1.clone()).chain(string_cells.iter().map(|s| s.1.clone())).collect();
+            all.sort();
+            all.dedup();
+            all.sort_by(|a, b| enc(b).len().cmp(&enc(a).len()).then(a.cmp(b)));
+            let mut placed: Vec<(Vec<u8>, usize)> = Vec::new();
+            let mut off: BTreeMap<String, usize> = BTreeMap::new();
+            for st in &all {
+                let eb = enc(st);
+                if let Some((lb, lo)) = placed.iter().find(|(lb, _)| lb.ends_with(&eb)) {
+                    off.insert(st.clone(), lo + lb.len() - eb.len());
+                } else {
+                    off.insert(st.clone(), text.len());
+                    placed.push((eb.clone(), text.len()));
+                    text.extend(eb);
+                }
+            }
+            for (i, (_, nm)) in labels.iter().enumerate() {
+                name_off[i] = off[nm];
+            }
+            for (a, st) in &string_cells {
+                str_off.insert(*a, off[st]);
+            }
+        }
         TextOrder::Interleaved => {
             let m = labels.len().max(string_cells.len());
             for i in 0..m {
@@ -321,6 +348,30 @@ pub fn write_canonical(c: &Content) -> Vec<u8> {
     write_layout(c, &canonical_layout(c))
 }
 
+/// All permutations of the label table that keep the relative order of labels on one address
+/// (at most 6 labels are permuted).
+pub fn label_table_perms(c: &Content) -> Vec<Vec<usize>> {
+    let labels = canonical_labels(c);
+    let nl = labels.len();
+    if nl > 6 {
+        return vec![(0..nl).collect(), (0..nl).rev().filter(|_| false).collect::<Vec<usize>>()].into_iter().filter(|v: &Vec<usize>| v.len() == nl).collect();
+    }
+    crate::util::permutations(nl)
+        .into_iter()
+        .filter(|perm| {
+            for i in 0..perm.len() {
+                for j in (i + 1)..perm.len() {
+                    let (a, b) = (perm[i], perm[j]);
+                    if labels[a].0 == labels[b].0 && a > b {
+                        return false;
+                    }
+                }
+            }
+            true
+        })
+        .collect()
+}
+
 /// Every conforming layout of the family of C01(c) for this content.
 pub fn layout_family(c: &Content, max_perm_items: usize) -> Vec<Layout> {
     let np = c.pointers.len() + c.strings.len();
@@ -353,6 +404,7 @@ pub fn layout_family(c: &Content, max_perm_items: usize) -> Vec<Layout> {
     let mut out = Vec::new();
     for pp in &pperms {
         for lp in &lperms {
+            out.push(Layout { pointer_perm: pp.clone(), label_perm: lp.clone(), text_order: TextOrder::TailShared, duplicate_strings: false, lead_pad: false });
             for to in [TextOrder::NamesFirst, TextOrder::StringsFirst, TextOrder::Interleaved] {
                 for dup in if has_repeats { vec![false, true] } else { vec![false] } {
                     for pad in [false, true] {
